@@ -166,9 +166,9 @@ func init() {
 			old := runtime.GOMAXPROCS(1)
 			defer runtime.GOMAXPROCS(old)
 			var cases []c18Case
-			lens := []int{0, 1, 64}
+			lens := []int{0, 1, 64, 1100}
 			if !c.Quick() {
-				lens = []int{0, 1, 64, 4096}
+				lens = []int{0, 1, 64, 1100, 4096}
 			}
 			for _, C := range []int{1, 2, 8} {
 				for _, L := range lens {
@@ -178,16 +178,14 @@ func init() {
 								if (op == "appendsample" || op == "pool") && spare {
 									continue
 								}
-								if op == "pool" && L == 4096 && C == 8 {
-									continue
-								}
+
 								cases = append(cases, c18Case{Op: op, S: tn(t), D: tn(t), C: C, L: L, Spare: spare})
 							}
 						}
 						for s := 0; s < dyn.NB; s++ {
 							for d := 0; d < dyn.NB; d++ {
-								if L == 4096 && (C != 2 || spare) && s != d {
-									continue // the longest length for all pairs at one shape only
+								if L >= 1100 && (C != 2 || spare) && s != d && (c.Quick() || L == 4096) {
+									continue // the longest lengths for all pairs at one shape only
 								}
 								for v := 0; v <= 3; v++ {
 									for _, op := range []string{"read", "write", "rstriped", "wstriped"} {
@@ -200,6 +198,11 @@ func init() {
 							}
 						}
 					}
+				}
+			}
+			for t := 0; t < dyn.NB; t++ { // large pools (tens of kilobytes and more)
+				for _, ck := range [][2]int{{8, 4096}, {2, 4500}, {1, 20000}} {
+					cases = append(cases, c18Case{Op: "pool", S: tn(t), D: tn(t), C: ck[0], L: ck[1]})
 				}
 			}
 			var n, nt int64
@@ -223,7 +226,7 @@ func init() {
 			c.Sample(cases[0])
 			c.Sample(cases[len(cases)/2])
 			c.Sample(cases[len(cases)-1])
-			c.Set("rule", "every configuration of {Sample/SetSample, AppendSample (not full / full), Append within capacity, self-Append within capacity, Channel view + all its methods, Slice, pool Get/AppendSample/Put cycle on the real sync.Pool} x 13 types and {Read, Write, ReadStriped, WriteStriped (slices equal/short+uneven/long/empty+nil), the nine conversions (source equal/shorter/longer)} x 169 type pairs, x C in {1,2,8} x lengths {0,1,64[,4096]} x plain buffer / window with spare capacity; monitor: testing.AllocsPerRun (GOMAXPROCS 1, warm-up call, integer mean), a non-zero reading is re-measured 5x and the minimum taken; bound 0, Slice <= 1; non-trivial = length > 0; configurations distinct by construction")
+			c.Set("rule", "every configuration of {Sample/SetSample, AppendSample (not full / full), Append within capacity, self-Append within capacity, Channel view + all its methods, Slice, pool Get/AppendSample/Put cycle on the real sync.Pool} x 13 types and {Read, Write, ReadStriped, WriteStriped (slices equal/short+uneven/long/empty+nil), the nine conversions (source equal/shorter/longer)} x 169 type pairs, x C in {1,2,8} x lengths {0,1,64,1100[,4096]}, pools up to 8 x 4096 and 1 x 20000 samples x plain buffer / window with spare capacity; monitor: testing.AllocsPerRun (GOMAXPROCS 1, warm-up call, integer mean), a non-zero reading is re-measured 5x and the minimum taken; bound 0, Slice <= 1; non-trivial = length > 0; configurations distinct by construction")
 			c.Assume("allocation sites are static: which are reached depends only on instantiation and branch, both enumerated", "not run under -race (race-mode sync.Pool drops items at random)", "runs in the plain build (no overlay): the unmodified package and the real sync.Pool")
 		},
 		RunCase: func(c *core.Ctx, raw json.RawMessage) []F {
